@@ -568,6 +568,208 @@ func runServerScenario(t *testing.T, rec *recorder, cfg *sysCfg, seed uint64, sc
 	rep.Eval(cfg.name + fmt.Sprint(seed%64))
 }
 
+// runShutdownScenario (C06): connections active, idle and being accepted while shutdown is requested from one of
+// the documented sources; Run must return, every opened connection gets its OnClose first, OnShutdown runs once,
+// nothing runs afterwards.
+func runShutdownScenario(t *testing.T, rec *recorder, cfg *sysCfg, seed uint64, scratch string, rep *vsup.Report) {
+	rng := vsup.NewRng(seed)
+	rec.emit("Reset", "cfg", "shutdown "+cfg.String(), "et", cfg.et, "loops", cfg.loops, "seed", int(seed%1000000))
+	h := &vhandler{rec: rec, cfg: cfg, booted: make(chan struct{})}
+	if cfg.stopSrc == "OnBoot" {
+		h.bootAction = Shutdown
+	}
+	var addr, dial string
+	if cfg.network == "unix" {
+		dial = filepath.Join(scratch, fmt.Sprintf("sd%d.sock", seed%100000))
+		addr = "unix://" + dial
+	} else {
+		dial = fmt.Sprintf("127.0.0.1:%d", freePort())
+		addr = "tcp://" + dial
+	}
+	opts := []Option{WithNumEventLoop(cfg.loops), WithReusePort(cfg.reuseport), WithLoadBalancing(cfg.lb), WithTicker(cfg.ticker),
+		WithReadBufferCap(cfg.readCap), WithWriteBufferCap(cfg.writeCap), WithLogger(nullLogger{})}
+	if cfg.et {
+		opts = append(opts, WithEdgeTriggeredIO(true))
+	}
+	baseFds := fdSnapshot()
+	runErr := make(chan error, 1)
+	if cfg.stopSrc == "OnBoot" {
+		rec.emit("StopReq", "src", "OnBoot", "g", vsup.Goid())
+	}
+	go func() {
+		err := Run(h, addr, opts...)
+		rec.emit("RunRet", "err", errClass(err))
+		runErr <- err
+	}()
+	if cfg.stopSrc == "OnBoot" {
+		select {
+		case <-runErr:
+		case <-time.After(10 * time.Second):
+			rec.emit("RunStuck")
+		}
+		time.Sleep(20 * time.Millisecond)
+		leaked, what := leakedSince(baseFds)
+		rec.emit("ProcFd", "leaked", leaked, "what", fmt.Sprint(what), "sockfiles", 0)
+		rec.emit("Grace")
+		rep.Eval("shutdown-OnBoot")
+		return
+	}
+	select {
+	case <-h.booted:
+	case err := <-runErr:
+		t.Fatalf("engine did not boot: %v", err)
+	case <-time.After(10 * time.Second):
+		t.Fatalf("engine did not boot in time")
+	}
+	time.Sleep(20 * time.Millisecond)
+	var wg sync.WaitGroup
+	n := 4 + rng.Intn(5)
+	trigger := make(chan struct{}) // closed when the designated connection may do its thing
+	mk := func(id int) *peerSpec {
+		sp := &peerSpec{id: id, seed: rng.Uint64(), network: cfg.network, done: make(chan struct{}), openOut: -1, closeAt: -1, closeHow: "action",
+			peerRead: "normal", consume: []string{"all", "mixed", "lazy"}[rng.Intn(3)], reply: []string{"none", "frames"}[rng.Intn(2)]}
+		switch rng.Intn(3) {
+		case 0: // idle: nothing is ever sent
+			sp.total, sp.segs, sp.shut = 0, nil, "server"
+		case 1: // active: keeps sending until the engine goes away
+			sp.total = 200000 + rng.Intn(200000)
+			sp.segs = segPlan(sp.total, rng, 700)
+			sp.shut = "server"
+		default: // short exchange, then stays open
+			sp.total = 1 + rng.Intn(3000)
+			sp.segs = segPlan(sp.total, rng, cfg.readCap)
+			sp.shut = "server"
+		}
+		return sp
+	}
+	for i := 1; i <= n; i++ {
+		sp := mk(i)
+		wg.Add(1)
+		go func() { defer wg.Done(); runPeer(rec, h, sp, dial, scratch, rep) }()
+	}
+	// connections being accepted while the request comes in
+	stopDial := make(chan struct{})
+	var dwg sync.WaitGroup
+	dwg.Add(1)
+	go func() {
+		defer dwg.Done()
+		id := 200
+		for {
+			select {
+			case <-stopDial:
+				return
+			default:
+			}
+			id++
+			sp := mk(id)
+			sp.total, sp.segs = 10, []int{10}
+			wg.Add(1)
+			go func() { defer wg.Done(); runPeer(rec, h, sp, dial, scratch, rep) }()
+			time.Sleep(time.Duration(200+rng.Intn(1500)) * time.Microsecond)
+			if id > 260 {
+				return
+			}
+		}
+	}()
+	time.Sleep(time.Duration(5+rng.Intn(40)) * time.Millisecond)
+	close(trigger)
+	g := vsup.Goid()
+	switch cfg.stopSrc {
+	case "Stop":
+		rec.emit("StopReq", "src", "Stop", "g", g)
+		err := Stop(context.Background(), addr)
+		rec.emit("StopRet", "err", errClass(err))
+	case "OnTick":
+		atomic.StoreInt32(&h.tickStop, atomic.LoadInt32(&h.ticks)+1)
+	case "OnOpen", "OnTraffic", "OnClose":
+		// one more connection whose callback asks for the shutdown
+		sp := mk(99)
+		sp.stopOn = cfg.stopSrc
+		sp.total, sp.segs, sp.consume = 100, []int{100}, "all"
+		if cfg.stopSrc == "OnClose" {
+			sp.shut = "close"
+		}
+		wg.Add(1)
+		go func() { defer wg.Done(); runPeer(rec, h, sp, dial, scratch, rep) }()
+	default:
+		rec.emit("StopReq", "src", "Engine.Stop", "g", g)
+		ctx, cancel := context.WithTimeout(context.Background(), 20*time.Second)
+		err := h.eng.Stop(ctx)
+		cancel()
+		rec.emit("StopRet", "err", errClass(err))
+	}
+	select {
+	case <-runErr:
+	case <-time.After(20 * time.Second):
+		rec.emit("RunStuck")
+		rep.Violation("sys/run-stuck", "Run did not return within 20 s after the shutdown request: "+cfg.String(), nil)
+	}
+	close(stopDial)
+	dwg.Wait()
+	pd := make(chan struct{})
+	go func() { wg.Wait(); close(pd) }()
+	select {
+	case <-pd:
+	case <-time.After(30 * time.Second):
+		rec.emit("PeersTimeout")
+	}
+	h.asyncWG.Wait()
+	time.Sleep(30 * time.Millisecond)
+	h.closeDups(true)
+	leaked, what := leakedSince(baseFds)
+	if leaked > 0 {
+		time.Sleep(100 * time.Millisecond)
+		leaked, what = leakedSince(baseFds)
+	}
+	sockfiles := 0
+	if cfg.network == "unix" {
+		if _, err := os.Stat(dial); err == nil {
+			sockfiles = 1
+		}
+	}
+	rec.emit("ProcFd", "leaked", leaked, "what", fmt.Sprint(what), "sockfiles", sockfiles)
+	rec.emit("Grace")
+	rep.Eval("shutdown-" + cfg.stopSrc + cfg.name)
+}
+
+func TestVerifShutdown(t *testing.T) {
+	scratch := os.Getenv("VERIF_SYS_SCRATCH")
+	if scratch == "" {
+		scratch = t.TempDir()
+	}
+	rep := vsup.NewReport("shutdown")
+	rec, err := newRecorder(os.Getenv("VERIF_TRACE"), rep)
+	if err != nil {
+		t.Fatal(err)
+	}
+	rec.install()
+	defer rec.uninstall()
+	rng := vsup.NewRng(vsup.Seed() + 4242)
+	rounds := vsup.EnvInt("VERIF_ROUNDS", 1)
+	sources := []string{"Engine.Stop", "Stop", "OnTick", "OnOpen", "OnTraffic", "OnClose", "OnBoot"}
+	for r := 0; r < rounds; r++ {
+		for i, src := range sources {
+			for _, reuse := range []bool{false, true} {
+				cfg := &sysCfg{network: []string{"tcp", "unix"}[(i+r)%2], et: rng.Intn(2) == 0, loops: 1 + rng.Intn(3), reuseport: reuse,
+					lb: LoadBalancing(rng.Intn(3)), ticker: src == "OnTick" || rng.Intn(2) == 0, readCap: 2048, writeCap: 4096, stopSrc: src}
+				if reuse {
+					cfg.network = "tcp" // SO_REUSEPORT mode exists for tcp only
+				}
+				cfg.name = fmt.Sprintf("%s-%v-%v", cfg.network, cfg.et, cfg.reuseport)
+				runShutdownScenario(t, rec, cfg, rng.Uint64(), scratch, rep)
+			}
+		}
+	}
+	rec.uninstall()
+	if err := rec.close(); err != nil {
+		t.Fatal(err)
+	}
+	rep.Set("events", rec.seq)
+	if err := rep.Write(); err != nil {
+		t.Fatal(err)
+	}
+}
+
 func sysConfigs(rng *vsup.Rng, thorough bool) []*sysCfg {
 	var out []*sysCfg
 	for _, network := range []string{"tcp", "unix"} {
